@@ -3,6 +3,7 @@ package harness
 import (
 	"encoding/binary"
 	"fmt"
+	"sort"
 
 	"verifsim/ref"
 )
@@ -42,6 +43,7 @@ type attOpts struct {
 	grouped   bool // all 0x1211 first, then the data of all files interleaved, then the 0x1212s
 	holes     int  // >0: one file of 2*holes+1 bytes sent byte by byte, every second byte withheld: that many gaps
 	sparse    int  // >0: one file announced with this size of which only a few packets ever arrive: very long gaps
+	second    bool // the files are announced by two alarms (0x1210): the second arrives while the first file is unfinished
 }
 
 // fileName draws a file name valid on the wire for the dialect (no NUL, fits the chunk header).
@@ -142,7 +144,8 @@ func (g *genCtx) genUpload(ci int, o attOpts) {
 			size = 2*o.holes + 1
 		}
 		if o.sparse > 0 {
-			size = o.sparse
+			files = append(files, UpFile{Name: HexStr(name), Size: int64(o.sparse), Type: byte(g.r.intn(5))})
+			continue
 		}
 		data := g.r.bytes(size)
 		if o.holes == 0 && g.r.chance(20) && size > 8 {
@@ -163,7 +166,18 @@ func (g *genCtx) genUpload(ci int, o attOpts) {
 	if o.markerPct > 0 && g.r.chance(o.markerPct) {
 		alarmID = "A" + string(marker) + "Z"
 	}
-	ctl(0x1210, attach1210Body(dialect, "TERM001", alarmID, files), 0, "")
+	firstN := nfiles
+	var second []SentFrame
+	if o.second && nfiles >= 2 && !o.grouped {
+		firstN = 1 + g.r.intn(nfiles-1)
+		p.Faults = append(p.Faults, "input.second_alarm_mid_upload")
+	}
+	ctl(0x1210, attach1210Body(dialect, "TERM001", alarmID, files[:firstN]), 0, "")
+	if firstN < nfiles {
+		cur = &second
+		ctl(0x1210, attach1210Body(dialect, "TERM001", alarmID+"B", files[firstN:]), 0, "")
+		cur = &units
+	}
 	order := make([]int, nfiles)
 	for i := range order {
 		order[i] = i
@@ -174,12 +188,12 @@ func (g *genCtx) genUpload(ci int, o attOpts) {
 	for fi := range files {
 		f := files[fi]
 		cur = &pre[fi]
-		ctl(0x1211, body1211(string(f.Name), f.Type, len(f.Data)), fi+1, string(f.Name))
+		ctl(0x1211, body1211(string(f.Name), f.Type, f.size()), fi+1, string(f.Name))
 		cur = &data[fi]
 		// split into chunks
 		type ch struct{ off, n int }
 		var chunks []ch
-		for off := 0; off < len(f.Data); {
+		for off := 0; off < len(f.Data) && o.sparse == 0; {
 			n := 1 + g.r.intn(o.chunkMax)
 			if g.r.chance(15) {
 				n = 1
@@ -206,10 +220,17 @@ func (g *genCtx) genUpload(ci int, o attOpts) {
 			// a few packets at scattered offsets; the long stretches between them never arrive
 			chunks = chunks[:0]
 			k := 1 + g.r.intn(3)
-			step := len(f.Data) / k
+			step := f.size() / k
 			for i := 0; i < k; i++ {
 				n := 1 + g.r.intn(1000)
 				off := i*step + g.r.intn(step-n)
+				if g.r.chance(40) {
+					if i == 0 {
+						off = g.r.intn(2000) // right at the start ...
+					} else if i == k-1 {
+						off = f.size() - n - g.r.intn(2000) // ... and right at the end: as far apart as the size allows
+					}
+				}
 				chunks = append(chunks, ch{off, n})
 			}
 		}
@@ -224,8 +245,14 @@ func (g *genCtx) genUpload(ci int, o attOpts) {
 			}
 		}
 		emit := func(c ch) {
-			*cur = append(*cur, SentFrame{Chunk: true, File: fi + 1, Off: c.off, Body: f.Data[c.off : c.off+c.n], Valid: true,
-				Raw: chunkUnit(dialect, string(f.Name), c.off, f.Data[c.off:c.off+c.n]), Name: f.Name})
+			var payload []byte
+			if f.Size > 0 {
+				payload = g.r.bytes(c.n)
+			} else {
+				payload = f.Data[c.off : c.off+c.n]
+			}
+			*cur = append(*cur, SentFrame{Chunk: true, File: fi + 1, Off: c.off, Body: payload, Valid: true,
+				Raw: chunkUnit(dialect, string(f.Name), c.off, payload), Name: f.Name})
 		}
 		var withheld []ch
 		for i, c := range chunks {
@@ -244,7 +271,7 @@ func (g *genCtx) genUpload(ci int, o attOpts) {
 			emit(chunks[g.r.intn(len(chunks))]) // re-sent after the file is complete
 			p.Faults = append(p.Faults, "pkt.dup_after_complete")
 		}
-		ctl(0x1212, body1211(string(f.Name), f.Type, len(f.Data)), fi+1, string(f.Name))
+		ctl(0x1212, body1211(string(f.Name), f.Type, f.size()), fi+1, string(f.Name))
 		if len(withheld) > 0 {
 			p.Faults = append(p.Faults, "pkt.loss")
 			// partial resupply in a second round now and then, the rest in a third
@@ -272,7 +299,7 @@ func (g *genCtx) genUpload(ci int, o attOpts) {
 				for _, c := range rd {
 					emit(c)
 				}
-				ctl(0x1212, body1211(string(f.Name), f.Type, len(f.Data)), fi+1, string(f.Name))
+				ctl(0x1212, body1211(string(f.Name), f.Type, f.size()), fi+1, string(f.Name))
 			}
 		}
 	}
@@ -288,6 +315,17 @@ func (g *genCtx) genUpload(ci int, o attOpts) {
 		for fi := range files {
 			units = append(units, pre[fi]...)
 			units = append(units, data[fi]...)
+			if fi == 0 && len(second) > 0 {
+				// the second alarm: after the first file's data (and before its 0x1212), or inside its resupply rounds
+				k := 0
+				if len(post[0]) > 1 && g.r.chance(50) {
+					k = 1 + g.r.intn(len(post[0])-1)
+				}
+				units = append(units, post[0][:k]...)
+				units = append(units, second...)
+				units = append(units, post[0][k:]...)
+				continue
+			}
 			units = append(units, post[fi]...)
 		}
 	}
@@ -323,28 +361,23 @@ func (g *genCtx) genUpload(ci int, o attOpts) {
 
 type ivl struct{ off, end int }
 
-// missingRanges returns the maximal gaps of [0,size) not covered by got, ascending.
+// missingRanges returns the maximal gaps of [0,size) not covered by got, ascending (offset, length).
 func missingRanges(size int, got []ivl) [][2]uint32 {
-	cov := make([]bool, size)
-	for _, g := range got {
-		for i := g.off; i < g.end && i < size; i++ {
-			if i >= 0 {
-				cov[i] = true
-			}
-		}
-	}
+	s := append([]ivl(nil), got...)
+	sort.Slice(s, func(i, j int) bool { return s[i].off < s[j].off })
 	var out [][2]uint32
-	for i := 0; i < size; {
-		if cov[i] {
-			i++
+	pos := 0
+	for _, g := range s {
+		if g.end <= pos || g.off >= size {
 			continue
 		}
-		j := i
-		for j < size && !cov[j] {
-			j++
+		if g.off > pos {
+			out = append(out, [2]uint32{uint32(pos), uint32(g.off - pos)})
 		}
-		out = append(out, [2]uint32{uint32(i), uint32(j - i)})
-		i = j
+		pos = g.end
+	}
+	if pos < size {
+		out = append(out, [2]uint32{uint32(pos), uint32(size - pos)})
 	}
 	return out
 }
